@@ -90,7 +90,7 @@ mod i128_str {
         s.parse().map_err(serde::de::Error::custom)
     }
 }
-mod u128_str {
+pub mod u128_str {
     use serde::{Deserialize, Deserializer, Serializer};
     pub fn serialize<S: Serializer>(v: &u128, s: S) -> Result<S::Ok, S::Error> {
         s.serialize_str(&v.to_string())
